@@ -539,7 +539,8 @@ func checkEndpointTypes(r *Report, p *Prog) {
 			why := "no call of the checker for this attribute"
 			for _, sc := range calls {
 				c, cfc := sc.Call, sc.FC
-				bAP, lAP := cfc.AP(c.Call.Args[0]), cfc.AP(c.Call.Args[1])
+				bIdx, lIdx := endpointParamRoles(p, checker)
+				bAP, lAP := cfc.AP(c.Call.Args[bIdx]), cfc.AP(c.Call.Args[lIdx])
 				if !strings.HasSuffix(lAP, tn.Name()+"."+loc) {
 					continue
 				}
@@ -686,4 +687,23 @@ func derivesOrAlloc(v ssa.Value, call *ssa.Call) bool {
 		}
 	}
 	return false
+}
+
+// endpointParamRoles: which of the two string parameters of the endpoint-location checker is the binding and which the
+// location: the location is the one whose value reaches url.Parse (in the checker or a helper it hands it to); by
+// default (binding, location).
+func endpointParamRoles(p *Prog, fn *ssa.Function) (binding, location int) {
+	if len(fn.Params) != 2 {
+		return 0, 1
+	}
+	for _, f := range helperRegion(p, fn, 2) {
+		for _, c := range callsTo(f, "net/url.Parse") {
+			for i, prm := range fn.Params {
+				if flowsByValue(prm, c.Common().Args[0]) || ssa.Value(prm) == c.Common().Args[0] {
+					return 1 - i, i
+				}
+			}
+		}
+	}
+	return 0, 1
 }
